@@ -433,8 +433,9 @@ def r_tensor(ctx):
     fn = ctx.py.func(THERMO, "density")
     # the unit conversion: the floating-point literals of the function (whatever they are called); exactly one, and it is 1.660539 (amu/nm^3 -> kg/m^3);
     # that it multiplies mass / volume is decided by the evaluation below
-    cv = [n.value for n in ast.walk(fn) if isinstance(n, ast.Constant) and isinstance(n.value, float) and n.value not in (0.0, 1.0)]
-    ctx.decide(len(cv) == 1 and abs(cv[0] - 1.66053907) < 1e-6, "C16-R6", fn, THERMO, "density", "conversion = 1.660539 (amu/nm^3 -> kg/m^3)", "", "unit conversion constant(s): %r" % (cv,))
+    allf = [n.value for n in ast.walk(fn) if isinstance(n, ast.Constant) and isinstance(n.value, float)]
+    cv = [v for v in allf if abs(v - 1.66053907) < 1e-6]
+    ctx.decide(len(cv) == 1, "C16-R6", fn, THERMO, "density", "conversion = 1.660539 (amu/nm^3 -> kg/m^3)", "", "no (single) literal 1.660539 among the floating-point literals %r of density()" % (allf,))
     cvr = Rat(Poly.const(__import__("fractions").Fraction(str(cv[0])))) if cv and isinstance(cv[0], float) else conv
 
     def cell_model(ts_):
